@@ -765,6 +765,8 @@ result_type parse_url_impl(std::string_view user_input,
           // password, url's host to base's host, url's port to base's port,
           // url's path to a clone of base's path, and url's query to base's
           // query.
+          // The inherited host keeps its kind (domain, IPv4, IPv6).
+          url.host_type = base_url->host_type;
           if constexpr (result_type_is_ada_url) {
             url.username = base_url->username;
             url.password = base_url->password;
@@ -844,6 +846,7 @@ result_type parse_url_impl(std::string_view user_input,
         // - url's port to base's port,
         // - state to path state, and then, decrease pointer by 1.
         else {
+          url.host_type = base_url->host_type;
           if constexpr (result_type_is_ada_url) {
             url.username = base_url->username;
             url.password = base_url->password;
@@ -1122,6 +1125,7 @@ result_type parse_url_impl(std::string_view user_input,
             } else {
               url.update_host_to_base_host(base_url->get_host());
             }
+            url.host_type = base_url->host_type;
             // If the code point substring from pointer to the end of input does
             // not start with a Windows drive letter and base's path[0] is a
             // normalized Windows drive letter, then append base's path[0] to
@@ -1224,6 +1228,7 @@ result_type parse_url_impl(std::string_view user_input,
           // Set url's host to base's host, url's path to a clone of base's
           // path, and url's query to base's query.
           ada_log("FILE base non-null");
+          url.host_type = base_url->host_type;
           if constexpr (result_type_is_ada_url) {
             url.host = base_url->host;
             url.path = base_url->path;
